@@ -30,7 +30,7 @@ func init() {
 			Opt:      vrt.Options{RandInt: chooseConnOpt(), Delay: c.P("delay", "0") == "1"},
 			Classify: deadlockIs("liveness: threads blocked forever on a healthy session"),
 			Main: func() {
-				r := newMuxRig(rigCfg{conns: nconn, method: method, unit: unit})
+				r := newMuxRig(rigCfg{conns: nconn, method: method, unit: unit, wlimit: c.PI("wlimit", 0)})
 				var wg sync.WaitGroup
 				total, stotal := sum(writes), sum(swrites)
 				got := make([][]byte, nstream)  // server side, indexed by stream tag
@@ -186,6 +186,8 @@ func init() {
 			{Scenario: "mux.transfer", Params: vx.P("conns", "2", "streams", "2", "writes", "5", "delay", "1"), Bound: b(2, 3), Weight: 9},
 			{Scenario: "mux.transfer", Params: vx.P("conns", "1", "streams", "2", "writes", "5"), Bound: b(1, 2), Weight: 7},
 			{Scenario: "mux.transfer", Params: vx.P("conns", "2", "streams", "2", "writes", "5,3", "pool", "recycle", "delay", "1"), Bound: b(1, 2), Weight: 7},
+			// back-pressure: a Write blocks while the peer's receive loop has not taken the previous message
+			{Scenario: "mux.transfer", Params: vx.P("conns", "2", "streams", "2", "writes", "5,3", "both", "1", "swrites", "4", "wlimit", "1", "delay", "1"), Bound: b(1, 2), Weight: 9},
 			{Scenario: "mux.transfer", Params: vx.P("conns", "2", "streams", "1", "writes", "16133", "unit", "0", "rbuf", "20000"), Bound: b(1, 2), Weight: 3},
 			{Scenario: "mux.transfer", Params: vx.P("conns", "2", "streams", "3", "writes", "1", "delay", "1"), Bound: b(2, 3), Weight: 8},
 		}
@@ -199,6 +201,11 @@ func init() {
 			vx.Job{Scenario: "e2e.route", Params: vx.P("numconn", "0", "apps", "2", "sizes", "5,5"), Bound: b(1, 2), Weight: 6},
 			vx.Job{Scenario: "e2e.route", Params: vx.P("numconn", "3", "apps", "3", "sizes", "1", "method", "plain", "closeby", "proxy"), Bound: b(0, 1), Weight: 6},
 			vx.Job{Scenario: "e2e.route", Params: vx.P("numconn", "0", "apps", "1", "sizes", "20000", "method", "chacha20-poly1305", "closeby", "proxy"), Bound: b(1, 2), Weight: 8},
+			// with memory points before unsynchronised writes (package-level or field state shared by connections)
+			vx.Job{Scenario: "e2e.route", Params: vx.P("numconn", "2", "apps", "2", "sizes", "5", "mem", "1"), Bound: b(1, 2), Weight: 7},
+			// the byte streams segmented by the explorer (one or two reads cut short anywhere)
+			vx.Job{Scenario: "e2e.route", Params: vx.P("numconn", "2", "apps", "1", "sizes", "700,5", "seg", "2"), Bound: b(0, 1), Weight: 7},
+			vx.Job{Scenario: "e2e.route", Params: vx.P("numconn", "0", "apps", "1", "sizes", "20000", "seg", "1", "method", "aes-256-gcm"), Bound: b(0, 1), Weight: 7},
 			// long-lived, regularly used connections (5 requests 100 s apart: beyond the 300 s stream timeout, never idle that long)
 			vx.Job{Scenario: "e2e.route", Params: vx.P("numconn", "2", "apps", "1", "sizes", "5", "rounds", "5", "gap", "100"), Bound: b(1, 2), Weight: 5},
 			vx.Job{Scenario: "e2e.route", Params: vx.P("numconn", "0", "apps", "2", "sizes", "5", "rounds", "5", "gap", "100"), Bound: b(0, 1), Weight: 5},
